@@ -292,6 +292,13 @@ def gen_groups_rules(rng, prof, instances):
                     rule['starting_failure_strategy'] = pick(rng, STARTING_FAILURE)
                 prules.append(rule)
         groups.append({'name': gname, 'programs': programs})
+        has_exec_fail = any(children.get('%s:%s' % (gname, p['name']), {}).get('exec_fail') for p in programs)
+        if managed and has_exec_fail and prof.get('no_restart_storm'):
+            # the endless restart loop (command that cannot be executed + RESTART_APPLICATION) is a recorded finding
+            # of C06: profiles about other properties keep the two apart
+            for rule in prules:
+                if rule.get('running_failure_strategy') == 'RESTART_APPLICATION':
+                    rule['running_failure_strategy'] = 'CONTINUE'
         if managed:
             app = {'name': gname, 'programs': prules}
             if rng.random() < prof.get('p_app_sequenced', 0.85):
@@ -308,6 +315,9 @@ def gen_groups_rules(rng, prof, instances):
                 app['starting_failure_strategy'] = pick(rng, STARTING_FAILURE)
             if rng.random() < 0.5:
                 app['running_failure_strategy'] = pick(rng, prof.get('running_failure', RUNNING_FAILURE[:4]))
+            if has_exec_fail and prof.get('no_restart_storm'):
+                if app.get('running_failure_strategy') == 'RESTART_APPLICATION':
+                    app['running_failure_strategy'] = 'STOP_APPLICATION'
             apps.append(app)
     return groups, {'applications': apps}, children
 
